@@ -94,10 +94,18 @@ class DerivationProcessor:
                     valid_indices = [[(block.first_variable_for_level(level.factor, level) if not isinstance(level, BeforeStart) else level)
                                       for level in valid_tuple]
                                      for valid_tuple in valid_tuples]
+                    # Variables of a complex-window argument factor are laid out per applicable trial of
+                    # that factor, not per trial of the grid:
+                    valid_sizes = [[(len(level.factor.levels)
+                                     if not isinstance(level, BeforeStart) and level.factor.has_complex_window
+                                     else block.variables_per_trial())
+                                    for level in valid_tuple]
+                                   for valid_tuple in valid_tuples]
                     shifted_indices = DerivationProcessor.shift_window(valid_indices,
                                                                        level.window,
                                                                        block.variables_per_trial(),
-                                                                       block.sustain_count(factor))
+                                                                       block.sustain_count(factor),
+                                                                       valid_sizes)
                     level_index = block.first_variable_for_level(factor, level)
                     accum.append(Derivation(level_index, shifted_indices, factor))
             # check that everything in the cross product is covered by some level
@@ -126,7 +134,8 @@ class DerivationProcessor:
     def shift_window(indices: List[List[object]],
                      window: Window,
                      trial_size: int,
-                     sustain_count: int
+                     sustain_count: int,
+                     trial_sizes: Any = None
                      ) -> List[List[object]]:
         """This is a helper function that shifts the indices of
         :func:`.DerivationProcessor.generate_derivations`.
@@ -156,17 +165,18 @@ class DerivationProcessor:
         shifted_idxs = cast(List[List[object]], [])
         shifted_sublists = cast(List[List[object]], [])
         argc = len(window.factors)
-        for idx_list in indices:
+        for tuple_no, idx_list in enumerate(indices):
             sublist_size = len(idx_list) // argc
             sublists = chunk_list(idx_list, sublist_size)
             shifted_sublists = []
-            for idx_list in sublists:
+            for sublist_no, idx_list in enumerate(sublists):
                 l = cast(List[object], [])
                 for i, idx in enumerate(idx_list):
                     if isinstance(idx, BeforeStart):
                         l.append(BeforeStart(idx.ready_at+(len(idx_list) - i - 1)))
                     else:
-                        l.append(cast(int, idx) + i * sustain_count * trial_size)
+                        size = trial_sizes[tuple_no][sublist_no * sublist_size + i] if trial_sizes else trial_size
+                        l.append(cast(int, idx) + i * sustain_count * size)
                 shifted_sublists.append(l)
             shifted_idxs.append(list(reduce(op.add, shifted_sublists, [])))
 
